@@ -224,7 +224,9 @@ def handleInline (req : Json) : Except String Json := do
         out := out ++ [("adapt", match adaptInline (fun _ => conv) c varNames p.graph em.nodes imports target with
           | .error e => errJson e
           | .ok ns => Json.mkObj [("nodes", Json.arr (ns.map nodeJson).toArray),
-              ("converts", toJson (needsConversion (em.nodes.map fun n => n.op.domain) imports target))])]
+              ("converts", toJson (needsConversion (em.nodes.map fun n => n.op.domain) imports target)),
+              ("convInits", toJson (conv.inits.length)),
+              ("contract", toJson (contractCheck conv p.graph))])]
       | _, _ => pure ()
       out := out ++ [("prefixFree", toJson (c.var.prefixFree c.nodeName && c.node.prefixFree c.nodeName))]
       out := out ++ [("emit", match r with
